@@ -48,6 +48,22 @@ static std::optional<Failure> check_row(Run &R, size_t i) {
                 return Failure{"row-reported-class", cs.str(), std::string("eav_is_email('a@x.") + r.domain + "') in mode " + ref::MODE_NAME[m] + " with no class allowed -> " + outcome_str(o) + ", CSV row says " + r.cls + " (error code " + std::to_string(C->eeav_tld[ci]) + ")"};
         }
     }
+    // ... and on ONE object per mode whose allow_tld is changed and confirmed again for every row (as the manual prescribes):
+    // allowed alone -> accepted; everything but its class allowed -> refused with its class (a row has one class, whatever
+    // the object was used for before)
+    if (!ref::reserved("x." + r.domain)) {
+        static Obj *REUSE[4] = {nullptr, nullptr, nullptr, nullptr};
+        for (int m = 0; m < 4; m++) {
+            if (!REUSE[m]) { REUSE[m] = new Obj(A); REUSE[m]->configure(m, 1); }
+            for (int pass = 0; pass < 2; pass++) {
+                int mask = pass == 0 ? C->bit[ci] : (C->all_bits() & ~C->bit[ci]);
+                A->obj_set_allow(REUSE[m]->p, mask); if (A->obj_setup(REUSE[m]->p) != 0) return Failure{"setup-failed", cs.str(), "eav_setup failed"};
+                v_outcome o = REUSE[m]->is_email_tail(TB, "a@x." + r.domain); R.eval();
+                bool ok = pass == 0 ? (o.ret == 1 && o.errcode == C->E_NO_ERROR && o.rc == want) : (o.ret == 0 && o.errcode == C->eeav_tld[ci] && o.rc == want);
+                if (!ok) return Failure{"row-class-on-reused-object", cs.str(), std::string("one object in mode ") + ref::MODE_NAME[m] + ", allow_tld set to " + (pass == 0 ? "only " : "everything but ") + r.cls + " and confirmed with eav_setup: eav_is_email('a@x." + r.domain + "') -> " + outcome_str(o) + ", CSV row says " + r.cls};
+            }
+        }
+    }
     // raw.csv: same row in U-label spelling, mode 6531
     if (T.ulabels.size() == T.puny.rows.size()) {
         const Bytes &u = T.ulabels[i];
